@@ -16,7 +16,10 @@ CACHE = os.path.join(WORK, "cache")
 
 
 def mine(ctx):
-    return lambda v: (v.get("replay") or {}).get("prop") == ctx.pid
+    def f(v):
+        r = v.get("replay") or {}
+        return r.get("prop") == ctx.pid or ctx.pid in (r.get("also") or [])
+    return f
 
 
 def _sha(paths, extra=""):
